@@ -1066,14 +1066,6 @@ static bool canResend(ssl_t *ssl)
 {
     bool canSend = false;
 
-    if (ssl->largestEpoch[0] == 0xFF && ssl->largestEpoch[1] == 0xFF &&
-        dtlsCompareEpoch(ssl->epoch, ssl->resendEpoch) != 0)
-    {
-        /* The flight holds a ChangeCipherSpec and would go out under a new
-           epoch: all are used, and an epoch is never used twice */
-        return false;
-    }
-
     if (ssl->flags & SSL_FLAGS_SERVER)
     {
         /* Expecting the client's Finished is a flight boundary only in a
